@@ -507,7 +507,7 @@ def c13(pid, tier, work, replay):
     s = C.seed()
     C.build(("sim",))
     rounds = sized(tier, 40, 600)
-    trace, infos, typical = CR.crash_traces(work, s, rounds, workers=8 if tier == "quick" else 14)
+    trace, infos, typical = CR.crash_traces(work, s, rounds, workers=8 if tier == "quick" else 14, sweeps=sized(tier, 2, 12))
     kinds = {}
     for i in infos:
         k = "%s/%s" % (i.get("mode"), i.get("inflight") if i.get("killed") else "finished-before-kill")
